@@ -270,7 +270,8 @@ def cases(draw: Any, prop: str, tier: str) -> dict:
                 case["lin"].append([0, "start"])  # the root's start() is last in every linearisation
             script = nodes[i][ph]
             script.insert(d.int(0, len(script)), {"op": "stall", "how": d.pick(["sleep", "never", "anext_default", "athrow"])})
-            case["stall_timeout"] = d.int(1, 12)
+            # ("default": the timeout argument is left out - the documented default of 20 seconds applies)
+            case["stall_timeout"] = "default" if d.pct(15) else d.int(1, 12)
     return case
 
 
@@ -556,7 +557,8 @@ class Run:
                     self.ctx = ctx
                     self.t0 = now()
                     try:
-                        self.result = await start_component(self.classes[0], cfg or None, timeout=self.timeout)
+                        tkw = {} if self.timeout == "default" else {"timeout": self.timeout}
+                        self.result = await start_component(self.classes[0], cfg or None, **tkw)
                         self.t_return = now()
                         self.ev("returned", "")
                     except BaseException as exc:
@@ -992,7 +994,7 @@ def run_case(case: dict, prop: str) -> Outcome:
             j.ownership(r)
     elif mode == "stall":
         r = _execute(case, case["stall_timeout"])
-        j.stall(r, case["stall_timeout"])
+        j.stall(r, 20 if case["stall_timeout"] == "default" else case["stall_timeout"])
         j.ownership(r)
     else:
         raise HarnessError(mode)
